@@ -96,7 +96,7 @@ pub const URI_POOL: [&str; 12] = [
 ];
 
 /// Header lines that are accepted and change nothing the tag check depends on.
-pub const BENIGN_HEADERS: [&str; 22] = [
+pub const BENIGN_HEADERS: [&str; 26] = [
     "Content-Type: application/json",
     "Content-Type: text/plain",
     "content-type:application/json",
@@ -119,6 +119,11 @@ pub const BENIGN_HEADERS: [&str; 22] = [
     "User-Agent: curl/7.0 (x; y)",
     "X-Empty:",
     "Weird Name : v: w",
+    // valid UTF-8 beyond ASCII is acceptable in custom names and values
+    "X-Owner: Zo\u{eb}",
+    "X-\u{dc}n\u{ef}: caf\u{e9} \u{20ac}5",
+    "X-Emoji: \u{1F600}",
+    "X-Custom: na\u{ef}ve",
 ];
 
 pub fn pad_header(len: usize, tag: usize) -> Vec<u8> {
@@ -179,7 +184,11 @@ impl Default for GenOpts {
 }
 
 pub fn content_length_line(n: usize, rng: &mut Rng) -> Vec<u8> {
-    match rng.below(6) {
+    match rng.below(9) {
+        // whitespace around the NAME is ignored as well as around the value
+        6 => format!("Content-Length : {}", n).into_bytes(),
+        7 => format!(" Content-Length: {}", n).into_bytes(),
+        8 => format!("\tcontent-LENGTH\t:\t{}", n).into_bytes(),
         0 => format!("content-length:{}", n).into_bytes(),
         1 => format!("CONTENT-LENGTH:   {}  ", n).into_bytes(),
         2 => format!("Content-Length: 00{}", n).into_bytes(),
